@@ -190,7 +190,7 @@ def run(ctx):
     rng = ctx.rng
     for ft in ((12, 32) if ctx.tier == "quick" else (12, 16, 32)):
         img, meta = C13.base_image(rng, ft)
-        for pi in range(ctx.scale(4, 24)):
+        for pi in range(ctx.scale(5, 24)):
             if ctx.time_left() < 15:
                 break
             progs = writer_progs(rng, rng.choice([2, 2, 3]))
@@ -207,12 +207,15 @@ def run(ctx):
                 # before it touches the device (C19-m5: removetree left unlocked; its free_cluster_chain copies, changes and swaps the FAT)
                 progs = [[("removetree", "/E")], [("append", "/dir one/f00 with long name.txt", (b"D" * 1500).hex())]]
                 SETUP[label] = [("exists", "/dir one/f00 with long name.txt")]
+            if pi == 4:      # an append that GROWS a file which already owns clusters (the allocation happens inside the data write) against another
+                # allocation, with line pre-emptions in the allocator (C19-m8: the filesystem lock released around the payload copy)
+                progs = [[("append", "/A.TXT", (b"G" * 1500).hex())], [("write", "/E/W4.BIN", (b"H" * 1500).hex())]]
             seq = sequential_trees(img, progs)
             rep0 = dict(volume=meta, programs=progs)
             sc = one_schedule(ctx, img, meta, progs, seq, S.preempt_policy({}), False, label, dict(rep0, preempt={}))
             n = sc.step
             pts = list(range(1, n + 1))
-            cap = ctx.scale(60 if pi not in (2, 3) else 700, 400 if pi not in (2, 3) else 3000)     # the handle-write / namespace-operation program: every single pre-emption point
+            cap = ctx.scale(60 if pi not in (2, 3, 4) else 700, 400 if pi not in (2, 3, 4) else 3000)     # the handle-write / namespace-operation program: every single pre-emption point
             if len(pts) > cap:
                 pts = sorted(rng.sample(pts, cap))
             before = len(ctx.violations)
@@ -221,7 +224,7 @@ def run(ctx):
                 if len(ctx.violations) > before + 2:
                     break
             # one pre-emption at distinct source lines of the shared in-memory tree (see C18), for the two fixed programs; thorough: all programs
-            if pi in (0, 1, 2, 3) or ctx.tier == "thorough":
+            if pi in (0, 1, 2, 3, 4) or ctx.tier == "thorough":
                 scb = S.Sched(len(progs), S.preempt_policy({}))
                 scb.record_kinds = True
                 fb, _ = mount_rw(img, scb)
@@ -229,11 +232,11 @@ def run(ctx):
                     do_op(fb, op)
                 S.run_threads(scb, [lambda p=p: do_ops(fb, p) for p in progs], pyfat_dir=PYFAT_DIR, line_mode=True, timeout=60)
                 for t in range(len(progs)):
-                    every = pi in (2, 3) and ctx.tier == "thorough"      # every distinct line, not only the tree module's
+                    every = pi in (2, 3, 4) and ctx.tier == "thorough"      # every distinct line, not only the tree module's
                     # the FAT in memory is shared state like the tree: the lines of the functions that copy, change and swap it (C19-m5)
-                    fat_funcs = ("free_cluster_chain", "allocate_bytes", "flush_fat", "_remove", "removetree", "write_data_to_cluster") if pi == 3 else ()
+                    fat_funcs = ("free_cluster_chain", "allocate_bytes", "flush_fat", "_remove", "removetree", "write_data_to_cluster") if pi in (3, 4) else ()
                     lines = [k for k in scb.kinds.get(t, {}) if k.startswith("line:") and (every or k.split(":")[1] in C18.TREE_FUNCS or k.split(":")[1] in fat_funcs)]
-                    cap_l = ctx.scale(40 if not every and pi != 3 else 160, 400 if not every else 2000)
+                    cap_l = ctx.scale(40 if not every and pi not in (3, 4) else 160, 400 if not every else 2000)
                     if len(lines) > cap_l:
                         lines = rng.sample(lines, cap_l)
                     for k in lines:
